@@ -113,6 +113,7 @@ type regHarness struct {
 	st          *stats
 	caseOps     []string
 
+	divergedBy map[string]bool
 	diverged bool // an oracle failed in this case: the spec state may no longer match, skip to the next case
 
 	nodes  map[int]*specNode
@@ -123,9 +124,16 @@ type regHarness struct {
 
 func (h *regHarness) oracle(f string, a ...any) {
 	msg := fmt.Sprintf(f, a...)
-	if h.diverged {
+	// one message per property prefix and case: the case stops after the current operation, but the
+	// other properties' oracles of that operation are still evaluated
+	prefix := strings.SplitN(msg, " ", 2)[0]
+	if h.divergedBy == nil {
+		h.divergedBy = map[string]bool{}
+	}
+	if h.divergedBy[prefix] {
 		return
 	}
+	h.divergedBy[prefix] = true
 	h.diverged = true
 	h.st.hit("oracle-failure")
 	if len(h.st.Oracle) < 40 {
@@ -885,6 +893,7 @@ func registryMain(args []string) {
 		st.hit("case:" + kind)
 		nontrivial := false
 		h.diverged = false
+		h.divergedBy = nil
 		for _, op := range ops {
 			if h.diverged {
 				break
